@@ -18,6 +18,10 @@ fn main() {
         eprintln!("usage: vcheck <ID> [quick|thorough] [--seed N] [--replay file]");
         std::process::exit(2);
     }
+    if args[0] == "--child-open" {
+        // E8: a foreign process attempting to open a directory (C18)
+        std::process::exit(props::c18::child_open(&args[1], &args[2]));
+    }
     let id = args[0].as_str();
     let rest = &args[1..];
     let code = match id {
@@ -31,6 +35,7 @@ fn main() {
         "C14" => main_for::<props::c14::P>(rest),
         "C16" => main_for::<props::c16::P>(rest),
         "C17" => main_for::<props::c17::P>(rest),
+        "C18" => main_for::<props::c18::P>(rest),
         "C20" => main_for::<props::c20::P>(rest),
         _ => {
             eprintln!("unknown property {id}");
